@@ -133,7 +133,7 @@ def build_harness(name, pkgs, test_pkg, harness_files, instrument=True, adds=Non
 # exploration
 
 def explore(binary, harness, bound, budget_s, nshards=None, cache=False, dev_bound=-1, cfg=None,
-            max_exec=0, race=False, test_run="TestVerif", env_extra=None, por=False):
+            max_exec=0, race=False, test_run="TestVerif", env_extra=None, por=False, max_exec_per_cfg=0):
     """Run one exploration pass over nshards worker processes and merge the results."""
     nshards = nshards or NPROC
     work = os.path.dirname(binary)
@@ -149,7 +149,7 @@ def explore(binary, harness, bound, budget_s, nshards=None, cache=False, dev_bou
         outs.append(out)
         args = {"harness": harness, "mode": "explore", "bound": bound, "dev_bound": dev_bound,
                 "cache": cache, "shard": s, "nshards": nshards, "budget_s": budget_s,
-                "max_exec": max_exec, "cfg": cfg or {}, "out": out, "race": race, "claim_dir": claim, "por": por}
+                "max_exec": max_exec, "cfg": cfg or {}, "out": out, "race": race, "claim_dir": claim, "por": por, "max_exec_per_cfg": max_exec_per_cfg}
         env = dict(GOENV)
         env["VERIF_ARGS"] = json.dumps(args)
         env.setdefault("GOGC", "400")
@@ -200,7 +200,7 @@ def merge(a, b):
         b = dict(b)
         b["shards"] = 1
         return b
-    for k in ("executions", "transitions", "states", "cache_hits", "race_errors", "step_limited", "cut_early", "sleep_blocked"):
+    for k in ("executions", "transitions", "states", "cache_hits", "race_errors", "step_limited", "cut_early", "sleep_blocked", "configs_capped"):
         a[k] = a.get(k, 0) + b.get(k, 0)
     for k in ("shard_mode", "configs"):
         if b.get(k):
